@@ -57,7 +57,10 @@ class P(ServeProp):
             elif r < 0.8:
                 data = bd.encode() + b"".join(b"\r\n" + b"".join((a + ": " + v + "\r\n").encode() for a, v in hs) + b"\r\n" + b + b"\r\n" + bd.encode() for hs, b in parts)
                 k = rnd.random(); kind = "valid"
-                if k < 0.15 and data: data = data[:rnd.randrange(len(data) + 1)]; kind = "trunc"
+                if k < 0.15 and data:
+                    # anywhere, or exactly where a phase of the reader ends: after the blank line that closes a part's headers, after a header line
+                    cuts = [j + 4 for j in range(len(data)) if data[j:j + 4] == b"\r\n\r\n"] + [j + 2 for j in range(len(data)) if data[j:j + 2] == b"\r\n"]
+                    data = data[:rnd.choice(cuts)] if cuts and rnd.random() < 0.5 else data[:rnd.randrange(len(data) + 1)]; kind = "trunc"
                 elif k < 0.3: data = data[len(bd.encode()):]; kind = "noopen"
                 elif k < 0.45: data = data[:len(data) - len(bd.encode())]; kind = "noclose"
                 elif k < 0.55:
@@ -105,16 +108,16 @@ class P(ServeProp):
             m = meta(line)
             if m.get("esc") == "0":
                 return None
-            if m.get("kind") in ("noopen", "noclose", "noheaders") and out.startswith("OK"):
+            if m.get("kind") in ("noopen", "noclose", "noheaders", "trunc") and out.startswith("OK"):
                 # removing the boundary text can leave a body that still starts / ends with a boundary-like line only when parts are tiny; be exact:
                 bd = bytes.fromhex(f[1]); data = bytes.fromhex(f[2]) if len(f) > 2 else b""
                 esc = bd.replace(b"-", b"")
                 first = data.split(b"\n")[0]
                 starts = bytes(c for c in first if c not in b"-\r" and c >= 32 and c != 127).endswith(esc)
-                last = data.split(b"\n")[-1]
+                last = (data[:-1] if data.endswith(b"\n") else data).split(b"\n")[-1]      # the last line, with or without its line break
                 ends = bytes(c for c in last if c not in b"-\r").endswith(esc)
                 if m["kind"] == "noopen" and not starts: return "missing-opening-boundary-accepted"
-                if m["kind"] == "noclose" and not ends and data: return "missing-closing-boundary-accepted"
+                if m["kind"] in ("noclose", "trunc") and not ends and data: return "missing-closing-boundary-accepted"
                 if m["kind"] == "noheaders": return "part-without-headers-accepted"
         return None
 
